@@ -72,6 +72,7 @@ type feeSpec struct {
 // applied to two worlds (C11).
 type Scenario struct {
 	rcvKind, denomKind, memoKind, route, intKind int
+	earlier                                      int // an earlier complete transfer over route earlier-1 (0: none)
 	receiver                                     string
 	amountNaN                                    bool
 	A                                            math.Int
@@ -205,6 +206,9 @@ func drawScenario() *Scenario {
 }
 
 func (s *Scenario) drawPriorState() {
+	if verif.Bound("earlier") > 0 {
+		s.earlier = verif.Choose("earlier-transfer", 4)
+	}
 	s.escrowBal = verif.BigInt("escrow-balance")
 	verif.Assume(!s.escrowBal.IsNegative())
 	s.priorD, s.priorO = math.ZeroInt(), math.ZeroInt()
@@ -234,6 +238,7 @@ func (s *Scenario) routeCounterparty() string {
 
 // apply installs the prior state of the scenario in w.
 func (s *Scenario) apply(w *World, withPriors bool) {
+	w.Earlier(s.earlier)
 	w.L.Set(escrow, nativeDenom, s.escrowBal)
 	w.L.Set(escrow, "ibc/HASH", s.escrowBal)
 	if withPriors {
